@@ -187,7 +187,19 @@ def attr_str(f):
     rs = f["ranges"]
     pad = (syn // 24) % 2 == 1
 
+    radix = f.get("radix")  # must-fail witnesses only: the macro reads plain decimal literals
+
     def num(n):
+        if radix == "hex":
+            return "0x%x" % n
+        if radix == "bin":
+            return "0b%s" % bin(n)[2:]
+        if radix == "oct":
+            return "0o%o" % n
+        if radix == "suffix":
+            return "%dusize" % n
+        if radix == "float":
+            return "%d.5" % n
         return ("%03d" % n) if pad else ("%d" % n)
 
     single = len(rs) == 1 and not f["force_list"]
@@ -248,6 +260,10 @@ def field_decl(f, owner=""):
     elif dv == 2:
         lines += ["    #[doc = \"%s\"]" % d for d in doc]
         lines.append("    %s" % attr_str(f))
+    elif dv == 3:
+        # documentation produced by a macro expression, as register-stamping macros write it
+        lines += ["    #[doc = concat!(\"%s\", \" (\", stringify!(%s), \")\")]" % (d, f["name"].replace("r#", "")) for d in doc]
+        lines.append("    %s" % attr_str(f))
     else:
         lines += before
         lines.append("    %s" % attr_str(f))
@@ -298,6 +314,80 @@ def render_struct(s):
     return lines
 
 
+def stamp_lines(s, lines):
+    """the same declaration written the way register-definition crates do it: a `macro_rules!` whose body holds the
+    attribute macro invocation, with the struct name, the default, the field names and the simple field types passed
+    in as `$x:ident` / `$x:expr` fragments (they reach the proc macro wrapped in invisible groups / with the
+    hygiene of the call site)"""
+    import re
+    params = ["$name:ident"]
+    args = [s["name"]]
+    body = []
+    pre = []
+    fi = 0
+    fields = {f["name"]: f for f in s["fields"]}
+    for l in lines:
+        st = l.strip()
+        if st.startswith("pub const ") or st.startswith("/// default constant"):
+            pre.append(l)
+            continue
+        m = re.match(r"^(\s*#\[bitfield\(.*?default\s*[=:]\s*)([^,)\]]+)(.*)$", l)
+        if m:
+            params.append("$dflt:expr")
+            args.append(m.group(2).strip())
+            body.append(m.group(1) + "$dflt" + m.group(3))
+            continue
+        m = re.match(r"^(\s*(?:pub(?:\([a-z]+\))? )?struct )(\w+)( \{)$", l)
+        if m:
+            body.append(m.group(1) + "$name" + m.group(3))
+            continue
+        m = re.match(r"^(\s*)((?:r#)?\w+): (.+),$", l)
+        if m and m.group(2) in fields:
+            ty = m.group(3)
+            fn_ = "$f%d" % fi
+            params.append("%s:ident" % fn_)
+            args.append(m.group(2))
+            mt = re.match(r"^(\[?)(\w+)((?:; \d+\])?)$", ty)
+            if mt:
+                tn = "$t%d" % fi
+                params.append("%s:ident" % tn)
+                args.append(mt.group(2))
+                ty = mt.group(1) + tn + mt.group(3)
+            body.append("%s%s: %s," % (m.group(1), fn_, ty))
+            fi += 1
+            continue
+        body.append(l)
+    mname = "stamp_%s" % s["name"].lower()
+    out = list(pre)
+    out.append("macro_rules! %s {" % mname)
+    out.append("    (%s) => {" % ", ".join(params))
+    out += ["        " + b for b in body]
+    out.append("    };")
+    out.append("}")
+    out.append("%s!(%s);" % (mname, ", ".join(args)))
+    return out
+
+
+def discr_str(e, v):
+    """how the user spelled the discriminant: rustc and the macro must agree on every integer-literal form"""
+    d = v["discr"]
+    c = h("dl", e["path"], v["name"]) % 9
+    if c == 3:
+        return "%d" % d
+    if c == 4:
+        return "0%d" % d if d else "00"          # zero-padded decimal (still decimal in Rust: `010` is ten)
+    if c == 5:
+        return "0b%s" % bin(d)[2:]
+    if c == 6:
+        return "0o%o" % d
+    if c == 7:
+        s = "%d" % d
+        return s[0] + "_" + s[1:] if len(s) > 1 else s + "_"
+    if c == 8:
+        return "0x%X" % d if d < 10 else "0x%s" % ("%x" % d).upper().rjust(len("%x" % d) + 1, "0")
+    return "0x%x" % d
+
+
 def render_enum(e):
     args = ["u%d" % e["bits"]]
     if e["exh"] is not None:
@@ -314,7 +404,7 @@ def render_enum(e):
             lines.append("    #[cfg(all())]")
         elif v["cfg"] == "off":
             lines.append("    #[cfg(any())]")
-        lines.append("    %s = %s," % (v["name"], v["discr_lit"] if "discr_lit" in v else ("0x%x" % v["discr"])))
+        lines.append("    %s = %s," % (v["name"], v["discr_lit"] if "discr_lit" in v else discr_str(e, v)))
     lines.append("}")
     return lines
 
@@ -372,6 +462,8 @@ class Crate:
                     continue
                 if d["kind"] == "struct":
                     lines = render_struct(d)
+                    if d.get("via_macro"):
+                        lines = stamp_lines(d, lines)
                 elif d["kind"] == "enum":
                     lines = render_enum(d)
                 else:
@@ -1324,6 +1416,20 @@ def fam_dbg(tier, seed):
     out.append(struct(mod, "Dbg24", 24, [field("a", [(0, 11)], T_uint(12)), field("r#fn", [(23, 23)], T_bool())], debug=True, family="DBG"))
     # zero fields
     out.append(struct(mod, "Dbg0", 8, [], debug=True, family="DBG"))
+    # a user trait in scope whose by-value methods carry the names of the fields, implemented for every type: the
+    # generated Debug impl must still print what the *getters* return (calling a getter on a copied value instead
+    # of through `&self` would resolve to the trait method first)
+    shadow_fields = ["flag", "level", "mode", "opt", "inner", "raw"]
+    lines = ["/// by-value methods named like the fields of DbgShadow", "pub trait Shadow: Sized {"]
+    for nm in shadow_fields:
+        lines += ["    /// shadows the getter `%s`" % nm, "    fn %s(self) -> u64 {" % nm, "        0xDEAD", "    }"]
+    lines += ["}", "impl<T> Shadow for T {}"]
+    out.append({"kind": "raw", "mod": mod, "name": "Shadow", "path": "%s::Shadow" % mod, "lines": lines, "defines": ["Shadow"]})
+    for nmx, dflt in (("DbgShadow", None), ("DbgShadowD", {"form": "=", "value": 0xBEEF})):
+        out.append(struct(mod, nmx, 32, [
+            field("flag", [(0, 0)], T_bool()), field("level", [(1, 4)], T_uint(4)), field("mode", [(5, 6)], T_enum("DE", 2, True), access="r"),
+            field("opt", [(7, 9)], T_enum("DO", 3, False)), field("inner", [(12, 15)], T_nested("DInner", 4)), field("raw", [(16, 31)], T_int(16)),
+        ], default=dflt, debug=True, family="DBG"))
     # every base width class, full-width and top-bit fields, wide signed fields
     for w in (8, 16, 32, 64, 128, 12, 48, 100):
         fs = [field("whole", [(0, w - 1)], T_uint(w)), field("top", [(w - 1, w - 1)], T_bool(), access="r"),
@@ -1591,6 +1697,33 @@ def fam_rnd(tier, seed):
 
 
 
+def fam_macro(tier, seed):
+    """declarations stamped out by macro_rules! (fixed sample of the RND grammar plus the README-like shapes)"""
+    mod = "mac"
+    rnd = random.Random(h("mac", tier))
+    tools = rnd_tools(rnd, mod)
+    out = []
+    n = 18 if tier == "quick" else 120
+    for i in range(n):
+        N = rnd.choice([8, 16, 32, 64, 128, 7, 12, 24, 48, 65, 100])
+        if i % 3 == 2:
+            s = tools["tile_struct"](N, "M%d_%d" % (i, N))
+        else:
+            nf = rnd.randint(1, 6)
+            nms = tools["names"](nf)
+            fs = [tools["free_field"](N, nms[j]) for j in range(nf)]
+            dflt = None
+            if i % 2 == 0:
+                dflt = {"form": rnd.choice(["=", ":", "const="]), "value": rnd.getrandbits(N)}
+            dbg = all("r" in f["access"] and not f["array"] for f in fs) and i % 4 < 2
+            s = struct(mod, "M%d_%d" % (i, N), N, fs, default=dflt, debug=dbg, family="MACRO")
+        s["family"] = "MACRO"
+        s["via_macro"] = True
+        add_const_witnesses(s, seed, maxn=2)
+        out.append(s)
+    return tools["helpers"], out
+
+
 def fam_misc(tier, seed):
     """declaration shapes around the fields: visibility, pass-through attributes, argument order, literal
     spellings, unusual field names, declaration order different from bit order, zero fields"""
@@ -1752,6 +1885,16 @@ def build_positive(tier, seed, harvested):
         c = Crate("pos_rnd_%d" % i)
         for d in rh:
             c.add(json.loads(json.dumps(d)))
+        for d in part:
+            c.add(d)
+        crates.append(c)
+    mh, rest = fam_macro(tier, seed)
+    for i, part in enumerate(chunk(rest, 60)):
+        c = Crate("pos_mac_%d" % i)
+        for d in mh:
+            d2 = json.loads(json.dumps(d))
+            d2["family"] = "MACRO"
+            c.add(d2)
         for d in part:
             c.add(d)
         crates.append(c)
